@@ -11,78 +11,86 @@ KINDS = {1: ("icomm", "detail::iCommutatorProxy::compute + iConmutatorSU%d.txt")
          3: ("trace", "SUTrace")}
 
 
-def queries(ctext, dims, timeout):
-    qs = []
-    for d in dims:
-        n = d * d
-        qs.append(l2.Query("spec.toMatrix.linear.d%d" % d, ctext, ["D=%d" % d, "KIND=1", "MODE=3"], timeout=timeout,
-                           function="spec toMatrix (d=%d)" % d, where="spec/gellmann.h"))
-        for k, (nm, fn) in KINDS.items():
-            f = fn % d if "%d" in fn else fn
-            qs.append(l2.Query("%s.d%d.linear" % (nm, d), ctext, ["D=%d" % d, "KIND=%d" % k, "MODE=2"], timeout=timeout,
-                               function=f, where="include/SQuIDS/detail/ProxyImpl.h", want_model=["in_lam"]))
-            for ia in range(n):
-                qs.append(l2.Query("%s.d%d.gen%d" % (nm, d, ia), ctext, ["D=%d" % d, "KIND=%d" % k, "MODE=1", "IA=%d" % ia],
-                                   timeout=timeout, function=f, where="include/SQuIDS/detail/ProxyImpl.h"))
-    return qs
+def q_sym(ctext, d, k, timeout):
+    nm, fn = KINDS[k]
+    f = fn % d if "%d" in fn else fn
+    return l2.Query("%s.d%d.symbolic" % (nm, d), ctext, ["D=%d" % d, "KIND=%d" % k, "MODE=1"], timeout=timeout, function=f,
+                    where="include/SQuIDS/detail/ProxyImpl.h")
+
+
+def q_gen(ctext, d, k, ia, timeout):
+    nm, fn = KINDS[k]
+    f = fn % d if "%d" in fn else fn
+    return l2.Query("%s.d%d.gen%d" % (nm, d, ia), ctext, ["D=%d" % d, "KIND=%d" % k, "MODE=1", "IA=%d" % ia], timeout=timeout,
+                    function=f, where="include/SQuIDS/detail/ProxyImpl.h")
 
 
 def run(rep, tier):
-    bdir = core.builddir("C02")
-    fired = {}
-    nrows = l2.validate_tables()
-    l2.prep_su_inc(bdir, fired)
-    for k, v in fired.items():
-        rep.rule(k, v)
-    rep.rule("R3.table_rows_validated", nrows)
+    bdir, inc = l2.std_setup(rep, "C02")
     tpl = open(os.path.join(core.VERIF, "contracts", "C02_l2.c")).read()
     ctext = extract.instantiate(tpl, rep)
-    inc = [bdir, os.path.join(core.VERIF, "spec")]
     rep.dropped.append("kernels: `throw` -> ghost flag (R1); sqrt(literal) -> products of the symbols S2,S3,S5 (R3, table validated natively); "
                        "proxy compute(): template/`this` dropped, operands passed by value; vector_wrapper<W> -> plain `+=` on a zeroed target "
                        "(that every slot is written exactly once and that the wrapper turns it into =,+=,-= is Layer 1, C09)")
-    rep.assume("machine arithmetic treated as mathematical (FloatingPoint(11,53) -> Real by tools/fp2real.py): rounding is not modelled")
-    rep.assume("S2,S3,S5 are the positive roots of 2,3,5")
-    rep.trust("two linear maps that agree on a basis are equal (combines the linearity lemma with the generator instantiations)")
-    rep.trust("CBMC 6.11 symbolic execution (--outfile), tools/fp2real.py theory swap, z3 4.8.12, cvc5 1.0")
+    rep.trust("two linear maps that agree on a basis are equal (only used when the fully symbolic VC is replaced by generator instantiations)")
     dims = [2, 3, 4, 5, 6]
     timeout = 60 if tier == "quick" else 300
-    qs = queries(ctext, dims, timeout)
+    qs = []
+    for d in dims:
+        qs.append(l2.Query("spec.toMatrix.linear.d%d" % d, ctext, ["D=%d" % d, "KIND=1", "MODE=3"], timeout=timeout,
+                           function="spec toMatrix (d=%d)" % d, where="spec/gellmann.h"))
+        for k in KINDS:
+            qs.append(q_sym(ctext, d, k, timeout))
+            nm, fn = KINDS[k]
+            qs.append(l2.Query("%s.d%d.linear" % (nm, d), ctext, ["D=%d" % d, "KIND=%d" % k, "MODE=2"], timeout=timeout,
+                               function=(fn % d if "%d" in fn else fn), where="include/SQuIDS/detail/ProxyImpl.h"))
+            if tier == "thorough":
+                qs += [q_gen(ctext, d, k, ia, timeout) for ia in range(d * d)]
     results = core.pmap(lambda q: l2.run_query(q, bdir, inc), qs, workers=max(2, core.NCPU // 2))
-    retry = []
     for r in results:
-        if r.status == "discharged":
-            l2.record(rep, r, "C02")
-        else:
-            retry.append(r)
-    # failing / undecided instantiation: descend to concrete generator pairs (DESIGN 4.3)
-    for r in retry:
-        q = r.q
-        defs = list(q.defines)
-        if "MODE=1" not in defs:
+        if r.status == "discharged" or ".symbolic" not in r.q.name:
             l2.record(rep, r, "C02")
             if r.status == "failed":
                 _violation(rep, r, None)
             continue
-        d = int([x for x in defs if x.startswith("D=")][0][2:])
-        sub = [l2.Query("%s.ib%d" % (q.name, ib), q.ctext, defs + ["IB=%d" % ib], timeout=timeout, function=q.function, where=q.where)
-               for ib in range(d * d)]
-        subres = core.pmap(lambda x: l2.run_query(x, bdir, inc), sub)
-        bad = [s for s in subres if s.status == "failed"]
-        und = [s for s in subres if s.status == "undecided"]
-        if bad:
-            r.status = "failed"
-            r.detail = "generator pair (%s) violates the postcondition" % ", ".join(x.q.name for x in bad[:4])
+        # fully symbolic VC failed or undecided: localise with generator instantiations (DESIGN 4.3)
+        defs = dict(x.split("=") for x in r.q.defines)
+        d, k = int(defs["D"]), int(defs["KIND"])
+        gres = core.pmap(lambda q: l2.run_query(q, bdir, inc), [q_gen(ctext, d, k, ia, timeout) for ia in range(d * d)])
+        gbad = [g for g in gres if g.status != "discharged"]
+        if not gbad:
+            # all generators hold; together with the linearity lemma the postcondition holds
+            lin = [x for x in results if x.q.name == "%s.d%d.linear" % (KINDS[k][0], d)][0]
+            if lin.status == "discharged" and r.status == "undecided":
+                r.status, r.detail, r.backend = "discharged", "by %d generator instantiations + linearity lemma" % (d * d), "z3/cvc5"
+            else:
+                r.status = "undecided"
             l2.record(rep, r, "C02")
-            _violation(rep, r, bad[0])
-        elif und or r.status == "undecided":
-            r.status = "undecided"
+            for g in gres:
+                l2.record(rep, g, "C02")
+            continue
+        l2.record(rep, r, "C02") if r.status == "failed" else None
+        for g in gbad:
+            sub = core.pmap(lambda x: l2.run_query(x, bdir, inc),
+                            [l2.Query("%s.ib%d" % (g.q.name, ib), g.q.ctext, list(g.q.defines) + ["IB=%d" % ib], timeout=timeout,
+                                      function=g.q.function, where=g.q.where) for ib in range(d * d)])
+            bad = [x for x in sub if x.status == "failed"]
+            if bad:
+                g.status = "failed"
+                g.detail = "generator pair (%s) violates the postcondition" % ", ".join(x.q.name for x in bad[:4])
+                l2.record(rep, g, "C02")
+                _violation(rep, g, bad[0])
+            else:
+                g.status = "undecided"
+                l2.record(rep, g, "C02")
+        if r.status != "failed":
+            r.status = "failed" if any(g.status == "failed" for g in gbad) else "undecided"
             l2.record(rep, r, "C02")
-        else:
-            # symbolic query said sat but every concrete pair holds: contradiction with linearity in b -> undecided
-            r.status = "undecided"
-            r.detail = "symbolic instance sat but all concrete pairs unsat"
-            l2.record(rep, r, "C02")
+        if r.status == "failed":
+            # the symbolic obligation is reported through its localised generator pairs
+            first = [g for g in gbad if g.status == "failed"]
+            if first:
+                rep.violations.append(("C02.L2." + r.q.name, rep.violations[-1][1], rep.violations[-1][2]))
 
 
 def _violation(rep, r, sub):
